@@ -193,15 +193,36 @@ class RawPeer:
             pass
 
 
-def harness_listener(rcvbuf=None):
+def harness_listener(rcvbuf=None, port=0):
+    """Harness-owned listener; port 0 = any, or a concrete port reserved earlier with quiet_port()."""
     ls = socket.socket(socket.AF_INET, socket.SOCK_STREAM)
-    ls.setsockopt(socket.SOL_SOCKET, socket.SO_REUSEADDR, 1)
-    if rcvbuf:
-        ls.setsockopt(socket.SOL_SOCKET, socket.SO_RCVBUF, rcvbuf)  # inherited by accepted sockets
-    ls.bind((HOST, 0))
-    ls.listen(16)
-    ls.setblocking(False)
+    try:
+        ls.setsockopt(socket.SOL_SOCKET, socket.SO_REUSEADDR, 1)
+        if rcvbuf:
+            ls.setsockopt(socket.SOL_SOCKET, socket.SO_RCVBUF, rcvbuf)  # inherited by accepted sockets
+        ls.bind((HOST, port))
+        ls.listen(16)
+        ls.setblocking(False)
+    except BaseException:
+        ls.close()
+        raise
     return ls
+
+
+def quiet_port(ports, tries=60):
+    """A concrete port of the shard's range on which nobody listens right now (connects get ECONNREFUSED)."""
+    for _ in range(tries):
+        port = ports.next()
+        s = socket.socket(socket.AF_INET, socket.SOCK_STREAM)
+        try:
+            s.setsockopt(socket.SOL_SOCKET, socket.SO_REUSEADDR, 1)
+            s.bind((HOST, port))
+        except OSError:
+            continue
+        finally:
+            s.close()
+        return port
+    raise RuntimeError("no quiet port in the shard's range")
 
 
 def accept_from(ls, hio_sock):
@@ -231,9 +252,13 @@ def accept_peer(ls, tls=False, tries=200):
     return None
 
 
-def connect_peer(port, tls=False, rcvbuf=None, sndbuf=None):
+def connect_peer(port, tls=False, rcvbuf=None, sndbuf=None, sport=None):
+    """Raw peer connected to 127.0.0.1:port; sport = fixed source port (for reconnects from the same address)."""
     s = socket.socket(socket.AF_INET, socket.SOCK_STREAM)
     try:
+        if sport is not None:
+            s.setsockopt(socket.SOL_SOCKET, socket.SO_REUSEADDR, 1)
+            s.bind((HOST, sport))
         if rcvbuf:
             s.setsockopt(socket.SOL_SOCKET, socket.SO_RCVBUF, rcvbuf)
         if sndbuf:
